@@ -100,7 +100,7 @@ extern "C" void h_client_auth_drop() { client_auth(2); }
 extern "C" void h_other_ns()
 {
     World w(2);
-    unsigned tagi = vp_u8(), nsi = vp_u8(); vp_assume(tagi < 5 && nsi >= 3 && nsi < 6);   // ns: tls | jabber:server | none
+    unsigned tagi = vp_u8(), nsi = 3 + vp_case_u(0, 3); vp_assume(tagi < 5);   // ns: tls | jabber:server | none (one instance each)
     QDomElement el = mkElement(pick(TB_OTAG, tagi), pick(TB_NS, nsi));
     setAttr(el, QStringLiteral("from"), vpSymString(3)); setAttr(el, QStringLiteral("to"), vpSymString(3)); setAttr(el, QStringLiteral("type"), pick(TB_TYPE, 1));
     w.q->handleStanza(el);
@@ -246,15 +246,17 @@ extern "C" void h_reply_foreign_sender()
 
 // (8) <response/> (SASL or SASL2) in an arbitrary exchange state.  VP_CASE bits 0-2: server kind/step, bit 3: SASL2
 enum { R_NONE, R_PLAIN0, R_PLAIN1, R_ANON1, R_DIGEST0, R_DIGEST1, R_DIGEST2, R_DIGEST3, NRESP };
+static QByteArray exactBytes(unsigned n, bool ascii) { QByteArray b; vp_c16_bytes_exact(&b, n, ascii); return b; }
 static void setDigestInput(unsigned slot, const QByteArray &v, bool present = true) { vp_c16_digest_input(slot, &v, present); }
 enum { D_REALM, D_URI, D_QOP, D_USER, D_NC, D_CNONCE, D_RESPONSE, D_NONCE };
 struct DigestMsg {
     QByteArray realm, uri, qop, user, nc, cnonce, response;
     void build()
     {
-        realm = asciiBytes(1); uri = asciiBytes(1); nc = asciiBytes(1); cnonce = asciiBytes(1); user = asciiBytes(2);
-        qop = vp_bool() ? QByteArray("auth") : asciiBytes(2);
-        response = vpSymBytes(4);
+        // fixed lengths: every concatenation inside the digest computation then has a concrete length
+        realm = exactBytes(1, true); uri = exactBytes(1, true); nc = exactBytes(1, true); cnonce = exactBytes(1, true); user = exactBytes(2, true);
+        qop = vp_bool() ? QByteArray("auth") : exactBytes(4, true);
+        response = exactBytes(4, false);
         setDigestInput(D_REALM, realm); setDigestInput(D_URI, uri); setDigestInput(D_QOP, qop); setDigestInput(D_USER, user);
         setDigestInput(D_NC, nc); setDigestInput(D_CNONCE, cnonce); setDigestInput(D_RESPONSE, response);
     }
@@ -280,7 +282,7 @@ extern "C" void h_sasl_response()
     if (st >= R_DIGEST0) {
         srv = installServer(w, M_DIGEST, user); static_cast<QXmppSaslServerDigestMd5 *>(srv)->m_step = int(st - R_DIGEST0);
         msg.build();
-        if (vp_bool()) srv->setPasswordDigest(vpSymBytes(2));   // arbitrary: a digest may be left over from an earlier round
+        if (vp_case_bool(4)) srv->setPasswordDigest(exactBytes(2, false));   // a digest may be left over from an earlier round
     }
     if (sasl2) sasl2Pending(w, false, QString());
     QByteArray raw = asciiBytes(4); vp_assume(!raw.isEmpty());
@@ -315,7 +317,7 @@ extern "C" void h_digest_reply()
     auto *reply = new QXmppPasswordReply; vp_c16_set_class(reply, &QXmppPasswordReply::staticMetaObject);
     unsigned err = vp_u8(); vp_assume(err <= 2);
     reply->setError(QXmppPasswordReply::Error(err));
-    const QByteArray stored = vpSymBytes(2);
+    const QByteArray stored = vp_case_bool(1) ? exactBytes(2, false) : QByteArray();
     reply->setDigest(stored);
     reply->setProperty("__sasl_raw", QByteArray("x"));
     vp_qobject_set_sender(reply);
@@ -365,4 +367,50 @@ extern "C" void h_checker_default()
     vp_assert((reply->error() == QXmppPasswordReply::NoError) == (e == QXmppPasswordReply::NoError && eq(p, c.secret)), "C16 default checker approves iff the stored password exists and equals the given one");
     if (e != QXmppPasswordReply::NoError) vp_assert(reply->error() == c.err, "C16 default checker passes lookup errors on");
     vp_assert(!reply->isFinished(), "C16 the reply finishes later (asynchronously)");
+}
+
+// (12) stream (re)start: <stream:stream to=X>: right / wrong domain; a pending exchange is dropped, the authentication state is kept
+extern "C" void h_stream_open()
+{
+    World w(2);
+    if (vp_bool()) installServer(w, M_PLAIN, asciiString(2));
+    QDomElement el = mkElement(QStringLiteral("stream"), QStringLiteral("http://etherx.jabber.org/streams"));
+    const QString to = vpSymString(2);
+    setAttr(el, QStringLiteral("to"), to);
+    w.q->handleStream(el);
+    noAuthEffect(w, "C16 opening a stream never authenticates, binds or routes");
+    vp_assert(!w.d->saslServer, "C16 a stream restart drops the pending SASL exchange");
+    const bool right = eq(to, w.domain);
+    vp_assert((vp_c16_ndisconnect() == 0) == right, "C16 a stream for a foreign domain is closed, one for the served domain is not");
+    vp_assert(vp_c16_nfeatures() == (right ? 1u : 0u), "C16 stream features are offered only for the served domain");
+    vp_assert(w.checker.nCheck + w.checker.nDigest == 0, "C16 opening a stream asks nothing of the checker");
+}
+
+// (13) KNOWN FINDING (runs only when listed): a checker reply is applied to whatever exchange is current when it arrives, not to the
+// exchange that issued the request.  Two pipelined PLAIN requests "NUL u1 NUL p1", "NUL u2 NUL p2"; the checker approves the FIRST.
+struct TwoChecker final : QXmppPasswordChecker {
+    unsigned n = 0; QString user[2]; QXmppPasswordReply *reply[2] = { nullptr, nullptr };
+    QXmppPasswordReply *checkPassword(const QXmppPasswordRequest &r) override
+    {
+        auto *rp = new QXmppPasswordReply; vp_c16_set_class(rp, &QXmppPasswordReply::staticMetaObject);
+        if (n < 2) { user[n] = r.username(); reply[n] = rp; } n++;
+        return rp;
+    }
+};
+static QByteArray plainMsg(const QByteArray &u, const QByteArray &p) { QByteArray m; m.append('\0'); m.append(u); m.append('\0'); m.append(p); return m; }
+extern "C" void h_reply_race()
+{
+    World w(0);
+    TwoChecker chk; w.d->passwordChecker = &chk;
+    for (int k = 0; k < 2; k++) {
+        QDomElement el = mkElement(QStringLiteral("auth"), ns_sasl.toString());
+        setAttr(el, QStringLiteral("mechanism"), pick(TB_MECH, M_PLAIN));
+        setB64Text(el, plainMsg(exactBytes(1, true), exactBytes(1, true)));
+        w.q->handleStanza(el);
+    }
+    vp_assume(chk.n == 2);
+    chk.reply[0]->setError(QXmppPasswordReply::NoError);      // the checker approves (u1, p1)
+    vp_qobject_set_sender(chk.reply[0]);
+    w.q->onPasswordReply();
+    vp_assert(w.d->jid.isEmpty() || eq(w.d->jid, cat3(chk.user[0], u'@', w.domain)), "C16 the connection is authenticated only as the user whose credentials the checker approved");
 }
